@@ -160,19 +160,19 @@ theorem lvl_top {sg : Graph} : Lvl sg sg.keys.length [sg.keys] := by
 
 /-! ### soundness and equal size, any constraints -/
 
-theorem mem_lcsFound (pick : Cands → List Int → Int) (g sg : Graph) (cands : Cands) (C : Constraints)
+theorem mem_lcsFound (pick : Map → Cands → List Int → Int) (g sg : Graph) (cands : Cands) (C : Constraints)
     (tbm : List (List Int)) (m : Map) :
     m ∈ lcsFound pick g sg cands C tbm ↔
-      ∃ nodes ∈ tbm, m ∈ mapNodes pick g sg C nodes.length (pick cands nodes) cands [] nodes := by
+      ∃ nodes ∈ tbm, m ∈ mapNodes pick g sg C nodes.length (pick [] cands nodes) cands [] nodes := by
   unfold lcsFound
   rw [List.mem_flatMap]
   constructor
   · rintro ⟨nodes, hn, hm⟩; exact ⟨nodes, (sortBy_perm _ tbm).mem_iff.1 hn, hm⟩
   · rintro ⟨nodes, hn, hm⟩; exact ⟨nodes, (sortBy_perm _ tbm).mem_iff.2 hn, hm⟩
 
-theorem lcs_call_sound {pick : Cands → List Int → Int} (hpick : PickOK pick) (g sg : Graph) (C : Constraints)
+theorem lcs_call_sound {pick : Map → Cands → List Int → Int} (hpick : PickOK pick) (g sg : Graph) (C : Constraints)
     {nodes : List Int} (hsub : ∀ u ∈ nodes, u ∈ sg.keys) (m : Map)
-    (hm : m ∈ mapNodes pick g sg C nodes.length (pick (findNodecolorCandidates g sg) nodes)
+    (hm : m ∈ mapNodes pick g sg C nodes.length (pick [] (findNodecolorCandidates g sg) nodes)
       (findNodecolorCandidates g sg) [] nodes) :
     MapOK g sg C m ∧ (m.map Prod.fst).Nodup ∧ ∀ u, u ∈ nodes ↔ u ∈ m.map Prod.fst := by
   obtain ⟨h1, h2, _, h4⟩ := mapNodes_sound hpick g sg C nodes _ _ _ [] (sInv_nodecolor g sg C nodes hsub)
@@ -186,7 +186,7 @@ def LcsGood (g sg : Graph) (C : Constraints) (m : Map) : Prop :=
 theorem length_of_same_mem {a b : List Int} (ha : a.Nodup) (hb : b.Nodup) (h : ∀ u, u ∈ a ↔ u ∈ b) :
     a.length = b.length := ((List.perm_ext_iff_of_nodup ha hb).2 h).length_eq
 
-theorem lcsFound_good {pick : Cands → List Int → Int} (hpick : PickOK pick) (g sg : Graph) (hs : sg.keys.Nodup)
+theorem lcsFound_good {pick : Map → Cands → List Int → Int} (hpick : PickOK pick) (g sg : Graph) (hs : sg.keys.Nodup)
     (C : Constraints) {k : Nat} {tbm : List (List Int)} (h : LvlW sg k tbm) (m : Map)
     (hm : m ∈ lcsFound pick g sg (findNodecolorCandidates g sg) C tbm) : LcsGood g sg C m ∧ m.length = k := by
   obtain ⟨nodes, hn, hm⟩ := (mem_lcsFound _ _ _ _ _ _ _).1 hm
@@ -196,7 +196,7 @@ theorem lcsFound_good {pick : Cands → List Int → Int} (hpick : PickOK pick) 
   have := length_of_same_mem (h1.nodup hs) h4 h5
   rw [← h2, this]; simp
 
-theorem lcsWith_good {pick : Cands → List Int → Int} (hpick : PickOK pick) (g sg : Graph) (hs : sg.keys.Nodup)
+theorem lcsWith_good {pick : Map → Cands → List Int → Int} (hpick : PickOK pick) (g sg : Graph) (hs : sg.keys.Nodup)
     (C : Constraints) (level : Nat) (tbm : List (List Int)) (h : LvlW sg level tbm) :
     ∃ j, ∀ m ∈ lcsWith pick g sg (findNodecolorCandidates g sg) C level tbm, LcsGood g sg C m ∧ m.length = j := by
   induction level generalizing tbm with
@@ -302,7 +302,7 @@ theorem cOK_nil (a ga b gb : Int) : cOK [] a ga b gb = true := by simp [cOK]
 
 /-- the yields of one level (no constraints), listed along the pattern nodes, are exactly the common
 induced subgraphs on `k` nodes, each once -/
-theorem lcsFound_exact {pick : Cands → List Int → Int} (hpick : PickOK pick) (g sg : Graph) (hs : sg.keys.Nodup)
+theorem lcsFound_exact {pick : Map → Cands → List Int → Int} (hpick : PickOK pick) (g sg : Graph) (hs : sg.keys.Nodup)
     (hg : g.keys.Nodup) {k : Nat} (hk : 1 ≤ k) {tbm : List (List Int)} (h : Lvl sg k tbm) :
     (∀ m', m' ∈ (lcsFound pick g sg (findNodecolorCandidates g sg) [] tbm).map (canonP sg)
         ↔ IsCommon (graphProblem g sg (colourPred g sg)) m' ∧ m'.length = k)
@@ -331,7 +331,7 @@ theorem lcsFound_exact {pick : Cands → List Int → Int} (hpick : PickOK pick)
       have hne : m'.map Prod.fst ≠ [] := by
         intro e; rw [e] at hl; simp at hl; omega
       have hnS : (m'.map Prod.fst).Nodup := h1.nodup hs
-      have hp := hpick (findNodecolorCandidates g sg) _ hne
+      have hp := hpick [] (findNodecolorCandidates g sg) _ hne
       obtain ⟨m, hm, hagree⟩ := mapNodes_complete hpick g sg [] (m'.map Prod.fst) (Map.toFun m')
         ⟨h2, fun _ _ _ _ _ => cOK_nil _ _ _ _⟩ (m'.map Prod.fst).length _ (findNodecolorCandidates g sg) []
         (by simp) (by simp) (cInv_nodecolor (fun u hu => h1.subset hu) h2) hp (by simp) (by simp) (by simp)
@@ -351,7 +351,7 @@ theorem lcsFound_exact {pick : Cands → List Int → Int} (hpick : PickOK pick)
       have hn' := hperm.mem_iff.1 hn
       obtain ⟨h1, h2⟩ := hW nodes hn'
       have hd := mapNodes_distinct hpick g sg hg [] nodes nodes.length
-        (pick (findNodecolorCandidates g sg) nodes) (findNodecolorCandidates g sg) []
+        (pick [] (findNodecolorCandidates g sg) nodes) (findNodecolorCandidates g sg) []
         (nInv_nodecolor hg) (by simp) (by simp)
       refine hd.imp ?_
       rintro a b ⟨u, hu, hne⟩ e
@@ -398,7 +398,7 @@ theorem searchDown_eq_zero (f : Nat → Bool) (n : Nat) (h : ∀ j, 1 ≤ j → 
 
 /-- **`_largest_common_subgraph` without constraints**, level by level against `searchDown (hasCommon P)`
 (the definition of `mcisSize`). -/
-theorem lcsWith_exact {pick : Cands → List Int → Int} (hpick : PickOK pick) (g sg : Graph) (hs : sg.keys.Nodup)
+theorem lcsWith_exact {pick : Map → Cands → List Int → Int} (hpick : PickOK pick) (g sg : Graph) (hs : sg.keys.Nodup)
     (hg : g.keys.Nodup) (level : Nat) (tbm : List (List Int)) (h : Lvl sg level tbm) (hle : level ≤ sg.keys.length) :
     (searchDown (hasCommon (graphProblem g sg (colourPred g sg))) level = 0 →
         lcsWith pick g sg (findNodecolorCandidates g sg) [] level tbm = [])
